@@ -124,6 +124,8 @@ def run_container(ctx, prop: str, cls: str) -> Result:
         RC.check_atomic(ctx, res, cls, MUTATORS_ATOMIC)
     with res.guard("RC.check_neighborsctx, res, cls"):
         RC.check_neighbors(ctx, res, cls)
+    with res.guard("RC.check_memo_keys"):
+        RC.check_memo_keys(ctx, res, cls)
     with res.guard("RC.check_record_deletion_joint(ctx, res, cls)"):
         RC.check_record_deletion_joint(ctx, res, cls)
     with res.guard("RC.check_batch_insert(ctx, res, cls)"):
